@@ -104,3 +104,17 @@ Theorem C11_varimax_update_matches_source : forall (p k : nat) (X Rm : list (lis
   varimax_target p k X Rm = varimax_update_src OR p k X Rm.
 Proof. exact varimax_update_matches_source. Qed.
 Print Assumptions C11_varimax_update_matches_source.
+
+(* the Kaiser normalisation around the Varimax and Promax steps, as translated from the source, is the identity on every row: the rotated
+   loadings are the loadings times the rotation matrix for data in any units (abstract field; no assumption on the size of h) *)
+Theorem C11_kaiser_pair_is_identity : forall (F : Type) (K : Ops F), FieldLaws K -> forall h eps x : F, fadd K h eps <> f0 K ->
+  fmul K (T5rot.kaiser_denorm K h eps) (fmul K (T5rot.kaiser_norm K h eps) x) = x /\
+  fmul K (T5rot.promax_denorm K h eps) (fmul K (T5rot.promax_norm K h eps) x) = x.
+Proof. exact (@C11_varimax_tie.kaiser_pair_is_identity). Qed.
+Print Assumptions C11_kaiser_pair_is_identity.
+
+(* ... and the variant multiplying back with h alone loses eps / (h + eps) of every row *)
+Theorem C11_kaiser_old_pair_refuted : exists h eps x : R,
+  (h + eps <> 0 /\ C11_varimax_tie.kaiser_denorm_old h eps * (T5rot.kaiser_norm OR h eps * x) <> x)%R.
+Proof. exact C11_varimax_tie.kaiser_old_pair_refuted. Qed.
+Print Assumptions C11_kaiser_old_pair_refuted.
